@@ -24,7 +24,7 @@ H = {
     'table16_row0': ('k_tables.rs', 'crate', ('quick', 'thorough'), 'TABLE[0]==0, TABLE16[0]==TABLE', 'complete (256 concrete entries)'),
     'table_xor_linear': ('k_tables.rs', 'crate', ('thorough',), 'TABLE is XOR-linear in its index', 'complete (two symbolic bytes)'),
     'common_tables': ('k_common.rs', 'crate', ('quick', 'thorough'), 'COMMON_INPUTS / _INV: index <= 63, inverse pair', 'complete (256 concrete entries)'),
-    'common_tables_pinned': ('k_common.rs', 'crate', ('quick', 'thorough'), 'COMMON_INPUTS equals the table of format versions 1-3 (pinned literal)', 'complete (256 concrete entries)'),
+    'common_tables_pinned': ('k_common.rs', 'crate', ('quick', 'thorough'), 'COMMON_INPUTS equals the table of format versions 1-3 (pinned literal) and common_idx / common_input store a rank r < 63 as the field value r + 1 (0 = explicit byte)', 'complete (256 concrete entries)'),
     'slot_order': ('k_slot.rs', 'crate', ('quick', 'thorough'), 'impl Ord / PartialOrd for Slot == reverse of (key, then output)', 'BOUNDED: keys of up to 3 bytes (all bytes, all outputs)'),
     'find_input_scan': ('k_scan.rs.tmpl', 'scan', ('quick', 'thorough'), 'R11: linear scan of find_input', 'window'),
     'seek_position': ('k_scan.rs.tmpl', 'scan', ('quick', 'thorough'), 'R11: position(|t| t.inp > b).unwrap_or(len)', 'window'),
